@@ -52,10 +52,11 @@ type sched struct {
 	name        string
 	srcChunk    int
 	eofWithData bool
-	dst         int // 0 = rs
+	dst         int  // 0 = rs
+	copy        bool // drained with io.Copy (which uses the decoder's WriteTo when it has one) instead of a Read loop
 }
 
-var scheds = []sched{{"whole/3", 0, false, 3}, {"1byte/rs", 1, false, 0}, {"whole/1", 0, true, 1}, {"7byte/64K", 7, true, 65536}, {"whole/rs+33", 0, false, -33}}
+var scheds = []sched{{"whole/3", 0, false, 3, false}, {"1byte/rs", 1, false, 0, false}, {"whole/1", 0, true, 1, false}, {"7byte/64K", 7, true, 65536, false}, {"whole/rs+33", 0, false, -33, false}, {"whole/io.Copy", 0, false, 0, true}, {"5byte/io.Copy", 5, true, 0, true}}
 
 type obs struct {
 	out           []byte
@@ -79,6 +80,17 @@ func drive(r *mon.Run, id string, d draft, stream []byte, digest string, limit u
 		o.decoderNonNil = dec != nil
 		if e != nil {
 			o.newErr = e
+			return
+		}
+		if sc.copy {
+			var sink bytes.Buffer
+			_, e := io.Copy(&sink, dec)
+			o.out = sink.Bytes()
+			if e == nil {
+				o.cleanEOF = true
+			} else {
+				o.err = e
+			}
 			return
 		}
 		n := sc.dst
